@@ -26,6 +26,7 @@ struct arec {
     int owners, weaks;
     int cleared, mem_freed, book_freed;
     int unique_kind;            /* 1: owned by a unique pointer (no book) */
+    int noclr;                  /* allocated without a clear callback: only the free is expected */
 };
 static struct arec A[MAXA];
 static int nA;
@@ -124,7 +125,8 @@ static void model_drop_owner(int a)
     if (a < 0) return;
     A[a].owners--;
     if (A[a].owners == 0) {
-        want_add('c', A[a].mem); want_add('f', A[a].mem);
+        if (!A[a].noclr) want_add('c', A[a].mem);
+        want_add('f', A[a].mem);
         A[a].cleared = 1; A[a].mem_freed = 1;
         VRT_COUNT("model.last-owner-released");
     }
@@ -211,7 +213,7 @@ static int st_apply(uint32_t op, int do_audit)
         VRT_OP2("shared_ptr.alloc", "S%ld size=%ld", a, size);
         model_drop_owner(Sa[a]); Sa[a] = -1;
         call_begin();
-        cstl_shared_ptr_alloc(&S[a], size, shared_clr);
+        cstl_shared_ptr_alloc(&S[a], size, (size & 1) ? NULL : shared_clr);     /* odd sizes: no clear callback */
         call_end("shared_ptr.alloc");
         if (size > 0) {
             void *mem = cstl_shared_ptr_get(&S[a]), *book = NULL;
@@ -223,10 +225,11 @@ static int st_apply(uint32_t op, int do_audit)
             }
             VRT_CHECK(nm == 2 && book != NULL, "memory.alloc.block-count", "shared alloc made %d allocations, expected managed block + bookkeeping block", nm);
             x = new_alloc_record();
-            A[x].mem = mem; A[x].book = book; A[x].size = size; A[x].owners = 1;
+            A[x].mem = mem; A[x].book = book; A[x].size = size; A[x].owners = 1; A[x].noclr = size & 1;
             *(uint32_t *)mem = MEMMAGIC;
             Sa[a] = x;
             VRT_COUNT("op.shared.alloc");
+            if (size & 1) VRT_COUNT("op.shared.alloc.without-clear-callback");
         } else {
             VRT_CHECK(cstl_shared_ptr_get(&S[a]) == NULL, "memory.alloc.zero-size-not-empty", "alloc(0) left a non-empty pointer");
             VRT_COUNT("op.shared.alloc.zero-size");
@@ -327,18 +330,18 @@ static int st_apply(uint32_t op, int do_audit)
         vrt_state(Ua[a] < 0 ? "empty" : "owning");
         VRT_OP2("unique_ptr.alloc", "U%ld size=%ld", a, size);
         x = Ua[a];
-        if (Ua[a] >= 0) { want_add('c', A[Ua[a]].mem); want_add('f', A[Ua[a]].mem); A[Ua[a]].cleared = A[Ua[a]].mem_freed = 1; Ua[a] = -1; }
+        if (Ua[a] >= 0) { if (!A[Ua[a]].noclr) want_add('c', A[Ua[a]].mem); want_add('f', A[Ua[a]].mem); A[Ua[a]].cleared = A[Ua[a]].mem_freed = 1; Ua[a] = -1; }
         call_begin();
         upriv[a] += 16;
         last_unique_priv = NULL;
-        cstl_unique_ptr_alloc(&U[a], size, unique_clr2, (void *)(upriv[a] + a));
+        cstl_unique_ptr_alloc(&U[a], size, (size & 1) ? NULL : unique_clr2, (void *)(upriv[a] + a));
         call_end("unique_ptr.alloc");
-        if (x >= 0) VRT_CHECK(last_unique_priv == A[x].book, "memory.unique_ptr.alloc.priv", "re-allocating a unique pointer cleared the old block with a wrong priv");
+        if (x >= 0 && !A[x].noclr) VRT_CHECK(last_unique_priv == A[x].book, "memory.unique_ptr.alloc.priv", "re-allocating a unique pointer cleared the old block with a wrong priv");
         if (size > 0) {
             void *mem = cstl_unique_ptr_get(&U[a]);
             VRT_CHECK(mem != NULL, "memory.unique_ptr.alloc.failed-without-fault", "unique alloc(%zu) left the pointer empty", size);
             x = new_alloc_record();
-            A[x].mem = mem; A[x].size = size; A[x].owners = 1; A[x].unique_kind = 1; A[x].book_freed = 1;
+            A[x].mem = mem; A[x].size = size; A[x].owners = 1; A[x].unique_kind = 1; A[x].book_freed = 1; A[x].noclr = size & 1;
             A[x].book = (void *)(upriv[a] + a);
             *(uint32_t *)mem = MEMMAGIC;
             Ua[a] = x;
@@ -360,7 +363,7 @@ static int st_apply(uint32_t op, int do_audit)
             VRT_CHECK(p == NULL, "memory.unique_ptr.release.empty-not-null", "release of an empty unique pointer returned %p", p);
         } else {
             VRT_CHECK(p == A[Ua[a]].mem, "memory.unique_ptr.release.wrong-pointer", "release returned %p, allocation is %p", p, A[Ua[a]].mem);
-            if (b) VRT_CHECK(clr == unique_clr2 && priv == A[Ua[a]].book, "memory.unique_ptr.release.clr-or-priv",
+            if (b) VRT_CHECK(clr == (A[Ua[a]].noclr ? NULL : unique_clr2) && priv == A[Ua[a]].book, "memory.unique_ptr.release.clr-or-priv",
                              "release reported a wrong clear function or priv");
             VRT_CHECK(*(uint32_t *)p == MEMMAGIC, "memory.unique_ptr.release.cleared", "released memory was already cleared");
             /* the harness now owns the block and frees it */
@@ -385,13 +388,13 @@ static int st_apply(uint32_t op, int do_audit)
         if (a >= nu) return 0;
         vrt_state(Ua[a] < 0 ? "empty" : "owning");
         VRT_OP1("unique_ptr.reset", "U%ld", a);
-        if (Ua[a] >= 0) { want_add('c', A[Ua[a]].mem); want_add('f', A[Ua[a]].mem); A[Ua[a]].cleared = A[Ua[a]].mem_freed = 1; }
+        if (Ua[a] >= 0) { if (!A[Ua[a]].noclr) want_add('c', A[Ua[a]].mem); want_add('f', A[Ua[a]].mem); A[Ua[a]].cleared = A[Ua[a]].mem_freed = 1; }
         last_unique_priv = NULL;
         call_begin();
         cstl_unique_ptr_reset(&U[a]);
         call_end("unique_ptr.reset");
         if (Ua[a] >= 0) {
-            VRT_CHECK(last_unique_priv == A[Ua[a]].book, "memory.unique_ptr.reset.priv", "clear callback of a unique pointer got a priv that belongs to another allocation");
+            if (!A[Ua[a]].noclr) VRT_CHECK(last_unique_priv == A[Ua[a]].book, "memory.unique_ptr.reset.priv", "clear callback of a unique pointer got a priv that belongs to another allocation");
             Ua[a] = -1;
         }
         VRT_COUNT("op.unique.reset");
@@ -434,14 +437,14 @@ static uint64_t st_sig(void)
     for (i = 0; i < ns; i++) {
         int a = Sa[i];
         if (a >= 0 && map[a] < 0) map[a] = next++;
-        h = vrt_mix(h, a < 0 ? 0 : 1 + map[a]);
+        h = vrt_mix(h, a < 0 ? 0 : (1 + map[a]) * 2 + A[a].noclr);
     }
     for (i = 0; i < nw; i++) {
         int a = Wa[i];
         if (a >= 0 && map[a] < 0) map[a] = next++;
         h = vrt_mix(h, a < 0 ? 0 : (1 + map[a]) * 2 + (A[a].owners > 0));
     }
-    for (i = 0; i < nu; i++) h = vrt_mix(h, Ua[i] >= 0);
+    for (i = 0; i < nu; i++) h = vrt_mix(h, Ua[i] >= 0 ? 1 + A[Ua[i]].noclr : 0);
     return h;
 }
 static int st_nontrivial(void)
@@ -458,6 +461,7 @@ static int build_alphabet(int s, int w, int u, uint32_t *al)
     int n = 0, i, j;
     for (i = 0; i < s; i++) {
         al[n++] = OP(K_SALLOC, i, 0, 24);
+        al[n++] = OP(K_SALLOC, i, 0, 25);       /* odd size: no clear callback */
         al[n++] = OP(K_SALLOC, i, 0, 0);
         al[n++] = OP(K_SRESET, i, 0, 0);
         for (j = 0; j < s; j++) if (i != j) al[n++] = OP(K_SHARE, i, j, 0);
@@ -470,6 +474,7 @@ static int build_alphabet(int s, int w, int u, uint32_t *al)
     }
     for (i = 0; i < u; i++) {
         al[n++] = OP(K_UALLOC, i, 0, 16);
+        al[n++] = OP(K_UALLOC, i, 0, 17);       /* odd size: no clear callback */
         al[n++] = OP(K_UALLOC, i, 0, 0);
         al[n++] = OP(K_URELEASE, i, 1, 0);
         al[n++] = OP(K_URELEASE, i, 0, 0);
@@ -518,7 +523,7 @@ static void run_random(uint64_t idx)
     n = build_alphabet(NS, NW, NU, al);
     for (i = 0; i < nops; i++) {
         uint32_t op = al[vrt_below(&g, n)];
-        if (OP_K(op) == K_SALLOC && OP_C(op)) op = OP(K_SALLOC, OP_A(op), 0, 4 + vrt_below(&g, 200));
+        if (OP_K(op) == K_SALLOC && OP_C(op)) op = OP(K_SALLOC, OP_A(op), 0, 4 + vrt_below(&g, 200));      /* odd: no callback */
         st_apply(op, 1);
         if (nA >= MAXA - 2) break;
         vrt_sig(0, st_sig());
